@@ -23,6 +23,15 @@ var Root = func() string {
 	return "/verif"
 }()
 
+// Out is where evidence and replay files are written (VERIF_OUT overrides; used when the harness itself is exercised
+// against scratch worktrees in parallel).
+var Out = func() string {
+	if r := os.Getenv("VERIF_OUT"); r != "" {
+		return r
+	}
+	return Root
+}()
+
 // Run collects what one check run covered.
 type Run struct {
 	mu         sync.Mutex
@@ -127,7 +136,7 @@ func (r *Run) Violate(kind, key, what string, c map[string]any) {
 	}
 	rp := Replay{Property: r.Property, Kind: kind, Key: key, What: what, Case: c}
 	h := sha256.Sum256([]byte(kind + "\x00" + key))
-	path := filepath.Join(Root, "replays", fmt.Sprintf("%s-%s.json", r.Property, hex.EncodeToString(h[:6])))
+	path := filepath.Join(Out, "replays", fmt.Sprintf("%s-%s.json", r.Property, hex.EncodeToString(h[:6])))
 	os.MkdirAll(filepath.Dir(path), 0o777)
 	b, _ := json.MarshalIndent(rp, "", " ")
 	os.WriteFile(path, b, 0o666)
@@ -225,8 +234,8 @@ func (r *Run) Finish(ruleMatch func(rule string, v Violation) bool) int {
 		out["assumptions"] = []string{}
 	}
 	b, _ := json.MarshalIndent(out, "", " ")
-	os.MkdirAll(filepath.Join(Root, "evidence"), 0o777)
-	if err := os.WriteFile(filepath.Join(Root, "evidence", r.Property+".json"), append(b, '\n'), 0o666); err != nil {
+	os.MkdirAll(filepath.Join(Out, "evidence"), 0o777)
+	if err := os.WriteFile(filepath.Join(Out, "evidence", r.Property+".json"), append(b, '\n'), 0o666); err != nil {
 		fmt.Fprintln(os.Stderr, "evidence:", err)
 		return 3
 	}
